@@ -2,6 +2,7 @@ package hx
 
 import (
 	"net/mail"
+	"strings"
 	"time"
 
 	"pgregory.net/rapid"
@@ -74,7 +75,9 @@ var MsgSpecGen = rapid.Custom(func(t *rapid.T) *MsgSpec {
 	}
 	s.DateOff = rapid.IntRange(-100000000, 100000000).Draw(t, "dateoff")
 	s.Zone = rapid.SampledFrom([]int{0, 0, 60, -300, 345}).Draw(t, "zone")
-	s.Subject = rapid.SampledFrom([]string{"", "hello", "s\xffbad utf8", "line\nbreak", "a very long subject " + string(make([]byte, 300)), "=?utf-8?q?enc?="}).Draw(t, "subject")
+	s.Subject = rapid.SampledFrom([]string{"", "hello", "s\xffbad utf8", "line\nbreak", "a very long subject " + string(make([]byte, 300)), "=?utf-8?q?enc?=",
+		// metadata larger than any buffer a store is likely to read its index through
+		"ten kilobytes " + strings.Repeat("0123456789", 1000)}).Draw(t, "subject")
 	s.Body = BodyGen.Draw(t, "body")
 	return s
 })
